@@ -150,6 +150,146 @@ def _kind(f, value):
     return 'unknown'
 
 
+CALLER_MAPS = ('arguments', 'constrain', 'lhs0', 'args', 'cons')
+FRESH_CALLS = ('numpy.full', 'numpy.zeros', 'numpy.ones', 'numpy.empty', 'numpy.array', 'numpy.copy', 'numpy.concatenate', 'numpy.stack', 'numpy.zeros_like', 'numpy.ones_like', 'numpy.full_like', 'numpy.empty_like', 'numpy.choose', 'numpy.where')
+VIEW_METHODS = ('ravel', 'reshape', 'view', 'squeeze', 'transpose', 'swapaxes')
+
+
+def check_solver_ownership(model, rep):
+    """R03.7: the solver front ends receive the caller's arrays inside the `arguments` / `constrain` dictionaries.  Per enumerated path
+    every local array is classified as CALLER-OWNED (taken from such a dictionary, or a no-copy view / conversion of a caller-owned
+    array: x[...] with a basic index, .ravel(), .reshape(), numpy.asarray(x), x.astype(..., copy=False)) or FRESH (numpy.full/zeros/
+    array/..., .copy(), .astype(...) with a copy, arithmetic, boolean- or index-array selections).  An in-place store (x[...] = ...,
+    x += ..., out=x) into a caller-owned array changes what the caller passes to the next call."""
+    from sa.paths import PathEnumerator, Event
+    mod = model.module('solver')
+    nstores = nfun = 0
+    for f in model.functions.values():
+        if f.module is not mod or isinstance(f.node, ast.Lambda):
+            continue
+        pos, kwonly, va, kwv = params(f.node)
+        maps = {p for p in list(pos) + list(kwonly) if p in CALLER_MAPS}
+        if not maps:
+            continue
+
+        def kind(e, state):
+            # 'caller' | 'fresh' | None (not an array we track)
+            if isinstance(e, ast.Name):
+                return state.get(e.id)
+            if isinstance(e, ast.Subscript):
+                base = e.value
+                if isinstance(base, ast.Name) and base.id in maps:
+                    return 'caller'
+                k = kind(base, state)
+                if k == 'caller':
+                    idx = e.slice
+                    basic = isinstance(idx, (ast.Slice, ast.Constant)) or (isinstance(idx, ast.Tuple) and all(isinstance(x, (ast.Slice, ast.Constant)) for x in idx.elts)) or src(idx) == '...'
+                    return 'caller' if basic else 'fresh'
+                return k
+            if isinstance(e, ast.Call):
+                fn = src(e.func)
+                if isinstance(e.func, ast.Attribute) and isinstance(e.func.value, ast.Name) and e.func.value.id in maps and e.func.attr in ('get', 'pop', 'setdefault'):
+                    return 'caller'
+                if fn in FRESH_CALLS:
+                    return 'fresh'
+                if fn in ('numpy.asarray', 'numpy.asanyarray', 'numpy.ascontiguousarray') and e.args:
+                    return kind(e.args[0], state)
+                if isinstance(e.func, ast.Attribute):
+                    recv = kind(e.func.value, state)
+                    if recv is not None:
+                        if e.func.attr == 'copy':
+                            return 'fresh'
+                        if e.func.attr == 'astype':
+                            nocopy = any(k.arg == 'copy' and const(k.value) is False for k in e.keywords)
+                            return recv if nocopy else 'fresh'
+                        if e.func.attr in VIEW_METHODS:
+                            return recv
+                return None
+            if isinstance(e, (ast.BinOp, ast.UnaryOp, ast.Compare)):
+                return 'fresh' if any(kind(x, state) for x in ast.iter_child_nodes(e) if isinstance(x, ast.expr)) else None
+            if isinstance(e, ast.IfExp):
+                ks = {kind(e.body, state), kind(e.orelse, state)}
+                return 'caller' if 'caller' in ks else 'fresh' if 'fresh' in ks else None
+            return None
+
+        def on_stmt(s_, st):
+            evs = []
+            if isinstance(s_, ast.Assign) and len(s_.targets) == 1:
+                t = s_.targets[0]
+                if isinstance(t, ast.Name):
+                    evs.append(Event('BIND', s_, (t.id, s_.value)))
+                elif isinstance(t, ast.Subscript) and isinstance(t.value, ast.Name) and t.value.id not in maps:
+                    evs.append(Event('STORE', s_, t.value.id))
+            elif isinstance(s_, ast.AugAssign):
+                t = s_.target
+                if isinstance(t, ast.Name):
+                    evs.append(Event('STORE', s_, t.id))
+                elif isinstance(t, ast.Subscript) and isinstance(t.value, ast.Name) and t.value.id not in maps:
+                    evs.append(Event('STORE', s_, t.value.id))
+            for c_ in ast.walk(s_) if not isinstance(s_, (ast.If, ast.For, ast.While, ast.With, ast.Try)) else ():
+                if isinstance(c_, ast.Call):
+                    for k in c_.keywords:
+                        if k.arg == 'out' and isinstance(k.value, ast.Name):
+                            evs.append(Event('STORE', s_, k.value.id))
+            return evs
+        try:
+            paths = PathEnumerator(f.node, on_stmt=on_stmt, unroll=1, max_states=60000, emit_truncated=True).paths()
+        except AnalysisError:
+            rep.info(f'R03.7 {f.key}: too many paths, ownership of its arrays is not decided')
+            continue
+        nfun += 1
+        bad = {}
+        for p_ in paths:
+            state = {}
+            for e in p_.events:
+                if e.kind == 'BIND':
+                    nme, val = e.data
+                    k = kind(val, state)
+                    if k is None:
+                        state.pop(nme, None)
+                    else:
+                        state[nme] = k
+                elif e.kind in ('iter', 'loop-body'):
+                    pass
+                elif e.kind == 'STORE':
+                    nstores += 1
+                    if state.get(e.data) == 'caller':
+                        bad.setdefault(e.node.lineno, (e.node, e.data))
+        for node, nme in bad.values():
+            rep.ob('R03.7', f.key, f.where(node), False, f'`{stmt_text(node)[:60]}` writes into `{nme}`, which on this path is (a no-copy view or conversion of) an array the caller passed in `{", ".join(sorted(maps))}`: '
+                   'the caller\'s array is changed, so a second call with the same arguments is not the call the caller made', statement=f'store-into-caller {nme}')
+        if not bad:
+            rep.ob('R03.7', f.key, f.where(), True, f'no in-place store into an array taken from {", ".join(sorted(maps))} on any of {len(paths)} paths', statement='caller-arrays-untouched')
+    if nfun < 8:
+        raise AnalysisError(f'R03.7: only {nfun} solver functions receiving argument dictionaries were analysed')
+
+
+def check_array_memo_key(model, rep):
+    """R03.8: types.lru_cache memoises functions of immutable arrays under a key built from the array's buffer.  A NumPy view is determined
+    by its start address, shape, strides and element type together; a key that leaves one of them out makes two different views (an array
+    and its transpose, a slice with another step) share an entry, and the second call is served the result of the first.  Writeable arrays
+    must bypass the memo (their content can change under the same key)."""
+    f = model.functions.get('types:lru_cache.<locals>.wrapped')
+    if f is None:
+        raise AnalysisError('types.lru_cache.wrapped not found')
+    branch = [g for g in ast.walk(f.node) if isinstance(g, ast.If) and 'numpy.ndarray' in src(g.test)]
+    if len(branch) != 1:
+        raise AnalysisError('types.lru_cache: the ndarray branch was not found')
+    appends = [c for c in ast.walk(branch[0]) if isinstance(c, ast.Call) and src(c.func) == 'key.append' and c.lineno < (branch[0].orelse[0].lineno if branch[0].orelse else 10**9)]
+    if len(appends) != 1:
+        raise AnalysisError('types.lru_cache: the key component of ndarray arguments was not found')
+    text = src(appends[0].args[0])
+    mentions = {const(x) for x in ast.walk(appends[0].args[0]) if isinstance(x, ast.Constant) and isinstance(x.value, str)} | {x.attr for x in ast.walk(appends[0].args[0]) if isinstance(x, ast.Attribute)}
+    need = {'start address': ('data',), 'strides': ('strides',), 'shape': ('shape',), 'element type': ('typestr', 'dtype', 'descr')}
+    missing = [what for what, names in need.items() if not any(nm in mentions for nm in names)]
+    ok = not missing
+    rep.ob('R03.8', f.key, f.where(appends[0]), ok, 'the memo key of an array argument covers start address, strides, shape and element type' if ok else
+           f'the memo key `{text[:70]}` of an array argument leaves out the {" and the ".join(missing)}: two immutable views that differ only there (an array and its transpose) share one memo entry, and the later call returns '
+           'the result computed for the earlier one', statement='array-key-complete')
+    bypass = any(isinstance(g, ast.If) and 'writeable' in src(g.test) and any(isinstance(b, ast.Return) for b in g.body) for g in ast.walk(branch[0]))
+    rep.ob('R03.8', f.key, f.where(branch[0]), bypass, 'a writeable array (or base) bypasses the memo' if bypass else 'writeable arrays are memoised: their content can change under the same key', statement='writeable-bypass')
+
+
 def run(model, rep, tier):
     from rules.c02 import check_destinations, check_printer
     from rules.c06 import check_constancy
@@ -166,6 +306,8 @@ def run(model, rep, tier):
     rep.rule('R03.3', 'only argument-free nodes are cacheable')
     rep.rule('R03.4', 'argument ingestion by asarray + shape check')
     rep.rule('R03.5', 'System memo slots are typed by the is_constant_matrix guard')
+    rep.rule('R03.7', 'solver front ends never store into arrays the caller passed in arguments/constrain (ownership typestate per path)')
+    rep.rule('R03.8', 'the buffer-keyed memo (types.lru_cache) keys arrays by address, strides, shape and element type; writeable arrays bypass it')
     rep.rule('R03.6', 'cached intermediates are read-only before a view of them can exist')
     check_destinations(model, rep, rule='R03.1')
     check_printer(model, _Rename(rep, {'R02.4': 'R03.1', 'R02.5': 'R03.1'}))
@@ -174,6 +316,8 @@ def run(model, rep, tier):
     check_constancy(model, _Rename(rep, {'R06.3': 'R03.3'}))
     check_runtime(model, _Rename(rep, {'R13.3': 'R03.4'}))
     check_system_cache(model, rep)
+    check_solver_ownership(model, rep)
+    check_array_memo_key(model, rep)
     from rules.c02 import check_dependency_registration, check_fields_announced
     check_fields_announced(model, rep, rule='R03.3')
     check_dependency_registration(model, rep, rule='R03.2')
